@@ -397,6 +397,8 @@ def _bool_leaves(test: ast.expr, subst: Optional[Dict[str, ast.expr]] = None, ou
         return out
     if subst and isinstance(test, ast.Name) and test.id in subst:
         return _bool_leaves(subst[test.id], subst, out)
+    if isinstance(test, ast.Constant):
+        return out
     if isinstance(test, ast.Compare) and len(test.ops) == 1 and type(test.ops[0]) in _NEG_CMP:
         test = ast.Compare(left=test.left, ops=[_NEG_CMP[type(test.ops[0])]()], comparators=test.comparators)
     t = unparse(test)
@@ -413,6 +415,8 @@ def _bool_eval(test: ast.expr, asg: Dict[str, bool], subst: Optional[Dict[str, a
         return all(vals) if isinstance(test.op, ast.And) else any(vals)
     if subst and isinstance(test, ast.Name) and test.id in subst:
         return _bool_eval(subst[test.id], asg, subst)
+    if isinstance(test, ast.Constant):
+        return bool(test.value)
     if isinstance(test, ast.Compare) and len(test.ops) == 1 and type(test.ops[0]) in _NEG_CMP:
         pos = ast.Compare(left=test.left, ops=[_NEG_CMP[type(test.ops[0])]()], comparators=test.comparators)
         return not asg[unparse(pos)]
@@ -612,24 +616,42 @@ def r3(ctx):
     proc_calls = [n.id for n in g.nodes if n.stmt is not None and isinstance(n.stmt, ast.Return) and isinstance(n.stmt.value, ast.Call)
                   and isinstance(n.stmt.value.func, ast.Name) and n.stmt.value.func.id == "processor"]
     ctx.require(proc_calls, "render_literal_value no longer returns processor(value)")
-    # (a) processor(value) is dominated by the false outcome of a test whose conjuncts are exactly
-    #     `value is None` [and `not <type>.should_evaluate_none`] and whose true arm renders NULL
-    from ..astutil import test_atoms
-    guards = []
-    none_guard = False
-    for t, pol in g.edge_guards(proc_calls[0]):
-        guards.append((unparse(t), pol))
-        if pol:
-            continue
-        atoms = set(test_atoms(t, True))
-        has_none = any(a.replace(" ", "") in ("valueisNone", "valueis None") or a == "value is None" for a, p_ in atoms if p_)
-        others = {(a, p_) for a, p_ in atoms if a != "value is None"}
-        allowed = all((not p_) and a.endswith(".should_evaluate_none") for a, p_ in others)
-        if has_none and allowed:
-            none_guard = True
+    # (a) processor(value) must not be reachable for `value is None` unless the type evaluates None itself:
+    #     follow only branch outcomes that are satisfiable together with  value is None  and
+    #     not <type>.should_evaluate_none  (the other leaf propositions are free).
+    pcall = g.nodes[proc_calls[0]].stmt.value
+    ctx.require(pcall.args and isinstance(pcall.args[0], ast.Name), "processor(...) is not called with the value parameter")
+    vname = pcall.args[0].id
+    handle = _type_handle(f, vname)
+    ctx.require(handle is not None, "render_literal_value: no type parameter found for the value")
+    fixed = {f"{vname} is None": True, f"{handle}.should_evaluate_none": False, f"{handle} is None": False}
+    subst = _single_bindings(f.node)
+
+    def satisfiable(test, outcome):
+        leaves = _bool_leaves(test, subst)
+        free = [l for l in leaves if l not in fixed]
+        if len(free) > 12:
+            return True
+        for asg in _assignments(free):
+            asg.update({k: v for k, v in fixed.items() if k in leaves})
+            if _bool_eval(test, asg, subst) == outcome:
+                return True
+        return False
+
+    def edge_ok(a, b, lab):
+        n = g.nodes[a]
+        if n.kind == "test" and lab in ("true", "false"):
+            return satisfiable(n.stmt.test, lab == "true")
+        return lab != "exc"
+
+    w = g.witness([g.entry], proc_calls, edge_ok=edge_ok)
+    none_guard = w is None
+    guards = [(unparse(t), pol) for t, pol in g.edge_guards(proc_calls[0])]
     proc_guard = any(t.strip() == "processor" and pol for t, pol in guards)
-    ctx.check(none_guard, f.key + ":none-first", "processor(value) is reachable for value None (NULL must be rendered by the "
-                                                  "compiler)", "None handled before the processor", f.loc)
+    ctx.check(none_guard, f.key + ":none-first", "processor(value) is reachable for value None although the type does not "
+                                                  "evaluate None (NULL must be rendered by the compiler)",
+              "None handled before the processor (unless the type evaluates None)", f.loc,
+              None if w is None else g.describe_path(w))
     ctx.check(proc_guard, f.key + ":processor-guard", "processor(value) not guarded by `if processor`", "guarded", f.loc)
     # (b) every other return is the Null rendering; no str(value) fallback; missing processor raises CompileError
     bad = []
@@ -759,8 +781,8 @@ R.mutant("integer-no-int", T, sub("            return str(int(value))", "       
 R.mutant("numeric-no-validation", T, sub("            decimal.Decimal(value)\n            return str(value)", "            return str(value)"), "C05-R1")
 R.mutant("binary-no-quote-doubling", T, sub("            ).replace(\"'\", \"''\")\n            return \"'%s'\" % value", "            )\n            return \"'%s'\" % value"), "C05-R1")
 R.mutant("uuid-no-quote-doubling", T, sub("""return f\"\"\"'{value.replace("-", "").replace("'", "''")}'\"\"\"""", """return f\"\"\"'{value.replace("-", "")}'\"\"\""""), "C05-R1")
-R.mutant("enum-skips-parent", T, sub("            value = self._db_value_for_elem(value)\n            if parent_processor:\n                value = parent_processor(value)\n            return value",
-                                     "            value = self._db_value_for_elem(value)\n            return \"'%s'\" % value"), "C05-R1")
+R.mutant("enum-skips-parent", T, sub("        parent_processor = super().literal_processor(dialect)\n\n        def process(value):\n            value = self._db_value_for_elem(value)\n            if parent_processor:\n                value = parent_processor(value)\n            return value",
+                                     "        parent_processor = super().literal_processor(dialect)\n\n        def process(value):\n            value = self._db_value_for_elem(value)\n            return \"'%s'\" % value"), "C05-R1")
 R.mutant("mssql-unicode-no-doubling", "dialects/mssql/base.py", sub("        def process(value):\n            value = value.replace(\"'\", \"''\")\n\n            if dialect.identifier_preparer._double_percents:\n                value = value.replace(\"%\", \"%%\")\n\n            return \"N'%s'\" % value",
                                                                   "        def process(value):\n            if dialect.identifier_preparer._double_percents:\n                value = value.replace(\"%\", \"%%\")\n\n            return \"N'%s'\" % value"), "C05-R1")
 R.mutant("mysql-no-backslash-doubling", "dialects/mysql/base.py", sub("        if self.dialect._backslash_escapes:\n            value = value.replace(\"\\\\\", \"\\\\\\\\\")\n        return value\n\n    # override native_boolean",
@@ -775,3 +797,32 @@ R.mutant("render-literal-none-after-processor", "sql/compiler.py", sub("        
 R.mutant("benign-string-rename", T, sub("    def literal_processor(self, dialect):\n        def process(value):\n            value = value.replace(\"'\", \"''\")\n\n            if dialect.identifier_preparer._double_percents:\n                value = value.replace(\"%\", \"%%\")\n\n            return \"'%s'\" % value",
                                         "    def literal_processor(self, dialect):\n        def process(value):\n            v2 = value.replace(\"'\", \"''\")\n\n            if dialect.identifier_preparer._double_percents:\n                v2 = v2.replace(\"%\", \"%%\")\n\n            return \"'\" \"%s'\" % v2"), None)
 R.mutant("benign-integer-local", T, sub("            return str(int(value))", "            n = int(value)\n            return str(n)"), None)
+# -- seeds (independent adversarial patches, see /verif/seeded/C05_*) and neighbours
+MY = "dialects/mysql/base.py"
+_MY_OLD = "        value = super().render_literal_value(value, type_)\n        if self.dialect._backslash_escapes:\n            value = value.replace(\"\\\\\", \"\\\\\\\\\")\n        return value\n\n    # override native_boolean"
+R.mutant("seed2-mysql-doubling-only-for-str-values", MY, sub(
+    _MY_OLD,
+    "        rendered = super().render_literal_value(value, type_)\n        if isinstance(value, str) and self.dialect._backslash_escapes:\n            rendered = rendered.replace(\"\\\\\", \"\\\\\\\\\")\n        return rendered\n\n    # override native_boolean"), "C05-R2")
+R.mutant("mysql-doubling-result-discarded", MY, sub(
+    _MY_OLD,
+    "        value = super().render_literal_value(value, type_)\n        if self.dialect._backslash_escapes:\n            value.replace(\"\\\\\", \"\\\\\\\\\")\n        return value\n\n    # override native_boolean"), "C05-R2")
+R.mutant("mysql-doubling-on-python-value", MY, sub(
+    _MY_OLD,
+    "        rendered = super().render_literal_value(value, type_)\n        if self.dialect._backslash_escapes and value is not None:\n            value = value.replace(\"\\\\\", \"\\\\\\\\\")\n        return rendered\n\n    # override native_boolean"), "C05-R2")
+R.mutant("mysql-doubling-only-for-string-types", MY, sub(
+    _MY_OLD,
+    "        value = super().render_literal_value(value, type_)\n        if not type_._is_type_decorator and self.dialect._backslash_escapes:\n            value = value.replace(\"\\\\\", \"\\\\\\\\\")\n        return value\n\n    # override native_boolean"), "C05-R2")
+R.mutant("benign-mysql-doubling-skipped-when-no-backslash", MY, sub(
+    _MY_OLD,
+    "        value = super().render_literal_value(value, type_)\n        if self.dialect._backslash_escapes and \"\\\\\" in value:\n            value = value.replace(\"\\\\\", \"\\\\\\\\\")\n        return value\n\n    # override native_boolean"), None)
+R.mutant("benign-mysql-early-return-and-alias", MY, sub(
+    _MY_OLD,
+    "        rendered = super().render_literal_value(value, type_)\n        escapes = self.dialect._backslash_escapes\n        if not escapes:\n            return rendered\n        return rendered.replace(\"\\\\\", \"\\\\\\\\\")\n\n    # override native_boolean"), None)
+_RLV_OLD = "        if value is None and not type_.should_evaluate_none:\n"
+R.mutant("seed1-render-literal-value-null-for-evaluates-none", "sql/compiler.py", sub(_RLV_OLD, "        if value is None:\n"), "C05-R4")
+R.mutant("literal-coercion-null-for-evaluates-none", "sql/coercions.py", sub(
+    "            and not is_crud\n            and (type_ is None or not type_.should_evaluate_none)\n", "            and not is_crud\n"), "C05-R4")
+R.mutant("render-literal-value-inverted-evaluates-none", "sql/compiler.py", sub(_RLV_OLD, "        if value is None and type_.should_evaluate_none:\n"), "C05-R4")
+R.mutant("benign-render-literal-value-alias-nested", "sql/compiler.py", sub(
+    _RLV_OLD + "            # issue #10535 - handle NULL in the compiler without placing\n            # this onto each type, except for \"evaluate None\" types\n            # (e.g. JSON)\n            return self.process(elements.Null._instance())\n",
+    "        type_handles_none = type_.should_evaluate_none\n        if value is None:\n            if not type_handles_none:\n                return self.process(elements.Null._instance())\n"), None)
